@@ -7,12 +7,12 @@ two spellings, a `..` detour or a symlink to the same file are the same number).
 statement is what `add_include`/`include_library` look at:
 
 * `rel`  — the result of canonicalising `dir(including file)/path` (`none`: does not exist),
-* `dot`  — the written path starts with `.` (directory libraries skip those),
+* `dot`  — the written path starts with `.` (no longer consulted: directory libraries are searched for every written path),
 * `sep`  — the written path contains a path separator (file libraries skip those),
 * `key`  — the written path itself, as an identifier compared against library entries.
 
 A library is a directory (the table of written paths that exist below it, with their canonical
-targets) or a single `.circom` file (canonical target and its file name).
+targets) or a single `.circom` file (canonical target and the file name it was given on the command line).
 -/
 namespace Circomspect.Includes
 
@@ -53,10 +53,10 @@ def Fs.incs (fs : Fs) (f : File) : List Inc :=
 def libLookup (i : Inc) : List Lib → Option File
   | [] => none
   | .dir es :: r =>
-    if i.dot then libLookup i r
-    else match es.lookup i.key with
-      | some f => some f
-      | none => libLookup i r
+    -- every written path is looked up (after the `fix:`; before, paths starting with `.` were skipped)
+    match es.lookup i.key with
+    | some f => some f
+    | none => libLookup i r
   | .file t nm :: r =>
     if !i.sep && nm == i.key then some t else libLookup i r
 
